@@ -416,6 +416,7 @@ func vhResetGlobals() {
 	vhAnyLimit, vhVarMax, vhIntCap, vhTruthyWhenZero, vhSymOpBudget = 0, 2, 0, false, 0
 	vhSpecial = nil
 	vhC05Opts, vhC05Opt, vhC05Sym = false, 0, ""
+	vhPreMode = 1
 	vhNewRun()
 	sLogDefault, cLogDefault = devNull, devNull
 	sLogLevelDefault, cLogLevelDefault = NoLogLevels, NoLogLevels
